@@ -19,7 +19,7 @@ CLAIMS = {
     },
     "C10": {
         "text": "Specification Fields: a callsite declaration (macro kind, level, declared fields in order with name form / value form / type / value slot, format-string message, later Span::record calls) determines the ONLY visit sequence (message first, then the present fields in declaration order, each once, through the documented typed route TypeRoute with exactly the canonical / Display / Debug text of the supplied value) and the ONLY evaluation counts (once when enabled, none when disabled by Interest::never, enabled()=false or the max-level hint; shorthand values bound outside the macro always once) the property allows; MCFields is the macro expansion as a step machine (three gates, element-by-element array construction, ValueSet::record) checked by TLC against it for every callsite shape of <= 2 fields x 4 value forms x 4 message forms x 4 collector modes. Binding: a generated corpus of 2241 real macro callsites (span!, event!, the ten level shorthands, enabled!; name forms ident / dotted / string literal / r# / {CONST}; value forms =, =%, =?, Empty, shorthand, %shorthand, ?shorthand; positions alone / before a field / before a message / braced; prefixes name: / target: / parent:; 53 value types incl. all integer widths, NonZero, Wrapping, floats, strings, bytes, the four dyn Error flavours, Box, references, display()/debug() wrappers; later Span::record of declared and undeclared names) is compiled against /repo and run under four collectors with boundary and random value assignments; a typed recording Visit logs (name, method, exact text), counters log every evaluation; TLC validates every run against Fields.",
-        "note": "254 generated forms are rejected by the macros at compile time (listed with the compiler message in harness/vh/corpus/macros_skip.json) and are not part of the corpus. Built without tracing's `log` feature; compile-time max_level_* features are not exercised. Display/Debug texts of sigil fields use an alphabet whose Rust formatting is known to the generator; typed fields use arbitrary Unicode / bit patterns.",
+        "note": "254 generated forms are rejected by the macros at compile time (listed with the compiler message in harness/vh/corpus/macros_skip.json) and are not part of the corpus. Built without tracing's `log` feature. The compile-time stage is exercised by a second build of the same driver and corpus with tracing's `max_level_info` (workspace harness-static): callsites above INFO must evaluate nothing and reach no collector under accepting collectors; the other max_level_* / release_max_level_* features are not built. Display/Debug texts of sigil fields use an alphabet whose Rust formatting is known to the generator; typed fields use arbitrary Unicode / bit patterns.",
         "ref": "4 (C10)",
     },
     "C11": {
